@@ -25,6 +25,8 @@ type Monitors struct {
 	phBlocks int64
 	phFirst  bool // phase observed from its first block
 	evals    int
+	prev     *Snap
+	prevDump []string
 }
 
 func NewMonitors() *Monitors { return &Monitors{phStep: -99} }
@@ -50,7 +52,33 @@ func amountOf(s string) *big.Int {
 func (m *Monitors) Check(c *Chain, o Op, res string) []string {
 	var v []string
 	v = append(v, m.c13(c, o, res)...)
+	cur := c.Snapshot()
+	v = append(v, m.betMonitors(c, o, res, m.prev, cur)...)
+	m.prev = cur
 	m.evals++
+	return v
+}
+
+// Atomicity: a failed transaction leaves no trace (the whole projected state is unchanged).
+func (m *Monitors) CheckAtomic(o Op, res string, dump []string) []string {
+	var v []string
+	if res == "err" && m.prevDump != nil {
+		same := len(dump) == len(m.prevDump)
+		for i := 0; same && i < len(dump); i++ {
+			same = dump[i] == m.prevDump[i]
+		}
+		if !same {
+			tag := "C06"
+			if o.Kind == "WAG" {
+				tag = "C08"
+			}
+			v = append(v, tag+" failed "+o.Kind+" changed the state")
+			if tag == "C08" {
+				v = append(v, "C06 failed "+o.Kind+" changed the state")
+			}
+		}
+	}
+	m.prevDump = dump
 	return v
 }
 
